@@ -235,8 +235,10 @@ int main(int argc, char **argv) {
         long k = cfg.ks[var / 10] < 0 ? el.n + 1 : cfg.ks[var / 10];
         return std::make_pair(std::string(vv::approx_name((int) (var % 10))), cs_of(el, w, (int) (var % 10), k));
     };
+    const int max_m = (int) A.geti("max-m", 1 << 30), min_m = (int) A.geti("min-m", 0);      // restrict a universe to its sparse / dense part (stated in the bound)
     auto work = [&](uint64_t u, uint64_t start_sub) {
         vg::EdgeList el = unit_graph(u);
+        if (el.m() > max_m || el.m() < min_m) return;
         int dim = vg::cycle_space_dim(el);
         std::vector<uint64_t> cyc; if (el.m() <= 62) cyc = vg::all_simple_cycles(el);
         uint64_t nw = vg::num_weightings(alpha, el.m());
@@ -249,6 +251,7 @@ int main(int argc, char **argv) {
         }
     };
     double t0 = vr::now_s();
+    A.has("out"); A.require_all_used();
     auto res = R.run(total_units, work, describe);
     double wall = vr::now_s() - t0;
     std::vector<std::string> samples;
